@@ -163,7 +163,7 @@ def evaluate(prop, plan, i=0, tag=None):
         "virt_us": r.get("end_us", 0),
         "counters": r.get("counters", {}),
         "log_hash": r.get("log_hash"),
-        "shape": r.get("shape_hash") or shape_hash(r),
+        "shape": (r.get("shape_hash") or shape_hash(r)) if plan.get("lane") != "component" else hashlib.blake2b(json.dumps(plan.get("component"), sort_keys=True).encode(), digest_size=8).hexdigest(),
         "cls": plan.get("meta", {}).get("cls", ""),
         "cfgkey": plan.get("meta", {}).get("cfgkey", ""),
         "probes": prop.probes(plan, out) if hasattr(prop, "probes") else {},
